@@ -25,7 +25,7 @@ def execute(case, tape):
     out["subspace"] = f"{case['algo']}/k={k}/agents={len(case['agents'])}"
     built = build.Built(case)
     result = {}
-    with orch.runtime(tape, cfg, max_time=CAP, max_steps=600000) as sim:
+    with orch.runtime(tape, cfg, max_time=CAP, max_steps=150000) as sim:
         audit = resilient.ReplicationAudit(sim, k)
         audit.install()
         try:
